@@ -231,10 +231,9 @@ def run_stage(case, max_steps=60000):
         def submit(self, fn, *a, **k):
           me = sched.current()
           call = cur_call.get(me.tid) if me is not None else None
-          n0 = len(sched.threads)
           fut = super().submit(fn, *a, **k)
-          for t in sched.threads[n0:]:
-            owner[t.tid] = addr_w.get(call.address) if call is not None else None
+          # (the new thread is the last task: no yield point between the effect of `submit` and this line)
+          owner[self.tasks[-1][0].tid] = addr_w.get(call.address) if call is not None else None
           return fut
       patch(courier_server, '_THREAD_POOL', WorkerPoolExec(sched, thread_name_prefix='wjob'))
 
@@ -262,10 +261,8 @@ def run_stage(case, max_steps=60000):
           last_fut[me.tid] = fut
         if method == 'maybe_make' and kwargs.get('return_immediately') and address in addr_w:
           rec('kickoff', addr_w[address])
-        n0 = len(sched.threads)
         netpool.submit(run_call, call, w)
-        for t in sched.threads[n0:]:
-          t.name = f'rpc>{"master" if address == master_addr else "w" + str(addr_w.get(address))}'
+        netpool.tasks[-1][0].name = f'rpc>{"master" if address == master_addr else "w" + str(addr_w.get(address))}'
         return fut
 
       def finish(call, **kw):
@@ -291,7 +288,15 @@ def run_stage(case, max_steps=60000):
         except (ValueError, TypeError):
           pass
 
-      jobs = B._OwnedExecutor(sched, owner, CUR_W.get)      # pylint: disable=protected-access
+      class JobsExec(shim.ThreadPoolExecutor):
+        """the runner's thread pool (`run_in_executor` of async_put / async_get_batch): a job belongs to the coroutine that submitted it"""
+
+        def submit(self, fn, *a, **k):
+          w = CUR_W.get()
+          fut = super().submit(fn, *a, **k)
+          owner[self.tasks[-1][0].tid] = w
+          return fut
+      jobs = JobsExec(sched, thread_name_prefix='pool')
       T = ns.transform.TreeTransform
       inq = iter_utils.AsyncIteratorQueue(_EvQueue(sched, buf, 'inq', rec, lambda: inq.enqueue_done), name='ds(output)', thread_pool=jobs)
       resq = iter_utils.AsyncIteratorQueue(_EvQueue(sched, buf, 'resq', rec, lambda: resq.enqueue_done), name='apply(output)',
